@@ -12,7 +12,9 @@ SHARD = 120
 RULE = ("op sequences (put, pin, add, get, getFirst, getLast, pop, rem, rem(val), cnt) on a real LMDB sub-db through "
         "Suber / IoSuber / IoSetSuber over key universes of 2-5 keys drawn from families with prefix-related keys "
         "('a','ab','abc',''), keys containing the ion separator '.', the tuple separator '_', 32-hex-digit tails, "
-        "and tuple keys; values from a small domain with duplicates and the empty value; keys passed as str, bytes, "
+        "and tuple keys; in 30% of the cases SEVERAL stores of one environment are driven in one history with the same "
+        "key set (the plain / io / ioset subers of a Duror, or the cans / drqs / dsqs Dom subers of a real Subery with "
+        "Bag(value=str) values), each against its own dictionary; values from a small domain with duplicates and the empty value; keys passed as str, bytes, "
         "memoryview or tuple; a separate malformed stream uses empty / over-long keys on the plain store; a case is "
         "non-trivial when it uses >= 2 keys of which one is a prefix of another or contains a separator, and has "
         ">= 1 mutating and >= 1 reading op; every result and the final full sub-db dump are compared with the model, "
@@ -83,6 +85,16 @@ def directed():
     out.append({"kind": "io", "ops": [_op("add", ["b"], "1"), _op("add", ["a"], "2"), _op("getlast", ["a"]),
                                        _op("getlast", ["b"]), _op("getlast", ["c"]), _op("getlast", ["0"]),
                                        _op("pop", ["b"]), _op("getlast", ["b"]), _op("getlast", ["a"])]})
+    # several stores of one environment with the SAME keys (also prefix / separator keys): each is its own dictionary
+    for envname in ("subery", "duror"):
+        out.append({"kind": "multi", "env": envname, "ops": [
+            _op("add", a, "v", "io"), _op("add", a, "v", "ioset"), _op("add", a, "v", "ioset"), _op("put", a, ["p"], "plain"),
+            _op("get", a, "io"), _op("get", a, "ioset"), _op("get", a, "plain"), _op("add", a, "w", "io"), _op("cnt", a, "ioset"),
+            _op("put", ab, ["x", "y"], "io"), _op("put", ab, ["y", "z"], "ioset"), _op("pin", a, ["q"], "ioset"), _op("get", a, "io"),
+            _op("rem", a, "ioset"), _op("get", a, "io"), _op("getlast", a, "io"), _op("rem", ab, "io"), _op("get", ab, "ioset"),
+            _op("pop", a, "io"), _op("remval", ab, "y", "ioset"), _op("get", ab, "ioset"), _op("get", ab, "io"),
+            _op("add", ["a.b"], "v", "io"), _op("add", ["a.b"], "v", "ioset"), _op("pop", ["a.b"], "ioset"), _op("get", ["a.b"], "io"),
+            _op("rem", a, "plain"), _op("get", a, "io"), _op("cnt", a, "plain"), _op("cnt", a, "io")]})
     # witnesses of the D27 classes
     out.append({"kind": "io", "ops": [_op("add", ["k"], "v0"), _op("add", ["k"], "v1"),
                                        _op("add", ["k." + HEX0], "w"), _op("get", ["k"])]})
@@ -92,10 +104,24 @@ def directed():
     return out
 
 
-def _gen_case(rng, fams, kind, nops):
+def _gen_multi(rng, fams, nops):
+    """several stores of ONE environment in one history, all using the same key set"""
     fam = rng.choice(fams)
     keys = rng.sample(fam, rng.randint(2, len(fam)))
     vals = rng.sample(VALS, rng.randint(2, 5))
+    stores = rng.choice([["io", "ioset"], ["io", "ioset"], ["plain", "io", "ioset"], ["plain", "io"], ["plain", "ioset"]])
+    ops = []
+    for _ in range(nops):
+        kd = rng.choice(stores)
+        o = _gen_case(rng, [keys], kd, 1, keys=keys, vals=vals)["ops"][0]
+        ops.append(o + [kd])
+    return {"kind": "multi", "env": rng.choice(["subery", "subery", "duror"]), "ops": ops}
+
+
+def _gen_case(rng, fams, kind, nops, keys=None, vals=None):
+    fam = rng.choice(fams)
+    keys = keys or rng.sample(fam, rng.randint(2, len(fam)))
+    vals = vals or rng.sample(VALS, rng.randint(2, 5))
     ops = []
     if kind == "plain":
         names, w = ["put", "pin", "get", "rem", "cnt"], [4, 3, 5, 2, 1]
@@ -127,7 +153,10 @@ def generate(rng, tier):
     for i in range(n):
         kind = rng.choice(["plain", "io", "io", "ioset", "ioset"])
         fams = RISKY_FAMILIES if rng.random() < 0.2 else INDEP_FAMILIES
-        out.append(_gen_case(rng, fams, kind, rng.choice([4, 8, 12, 20, 30])))
+        if rng.random() < 0.3:
+            out.append(_gen_multi(rng, fams, rng.choice([6, 10, 16, 24])))
+        else:
+            out.append(_gen_case(rng, fams, kind, rng.choice([4, 8, 12, 20, 30])))
     # malformed stream: empty / over-long keys on the plain store
     for i in range(20 if tier == "quick" else 200):
         ops = []
@@ -141,18 +170,38 @@ def generate(rng, tier):
 
 # ---------------------------------------------------------------- implementation driver
 _ENV = {}
+KINDS = ("plain", "io", "ioset")
 
 
-def _stores():
-    if not _ENV:
-        from hio.base.during import Duror, Suber, IoSuber, IoSetSuber
-        d = Duror(name="c24", headDirPath=str(scratch_dir() / "c24"), reopen=True)
-        _ENV["duror"] = d
-        _ENV["plain"] = Suber(db=d, subkey="plain.")
-        _ENV["io"] = IoSuber(db=d, subkey="io.")
-        _ENV["ioset"] = IoSetSuber(db=d, subkey="ioset.")
+def _store_of(case, o):
+    """the store an op goes to: the case's single kind, or (kind 'multi') the op's last element"""
+    return o[-1] if case["kind"] == "multi" else case["kind"]
+
+
+def _op_of(case, o):
+    return o[:-1] if case["kind"] == "multi" else o
+
+
+def _stores(envname="duror"):
+    """'duror': three subers with their own sub-db names on a Duror; 'subery': the cans / drqs / dsqs of a real Subery
+    (Dom subers: values are Bag(value=str), serialised as  Bag LF {"value":"..."} )."""
+    if envname not in _ENV:
+        from hio.base.during import Duror, Suber, IoSuber, IoSetSuber, Subery
+        e = {}
+        if envname == "duror":
+            d = Duror(name="c24", headDirPath=str(scratch_dir() / "c24"), reopen=True)
+            e.update(plain=Suber(db=d, subkey="plain."), io=IoSuber(db=d, subkey="io."), ioset=IoSetSuber(db=d, subkey="ioset."))
+        else:
+            d = Subery(name="c24s", headDirPath=str(scratch_dir() / "c24"), reopen=True)
+            e.update(plain=d.cans, io=d.drqs, ioset=d.dsqs)
+        e["duror"] = d
         atexit.register(lambda: d.close(clear=True))
-    return _ENV
+        _ENV[envname] = e
+    return _ENV[envname]
+
+
+def _wrap(v):
+    return 'Bag\n{"value":"%s"}' % v
 
 
 def _pykey(parts, i):
@@ -169,9 +218,63 @@ def _pyval(v, i):
     return [v, v.encode(), v, memoryview(v.encode())][(i // 2) % 4]
 
 
-def _apply(st, kind, i, o):
-    name, parts = o[0], o[1]
-    k = _pykey(parts, i)
+def _bagval(v, i):
+    from hio.base.hier import Bag
+    return Bag(value=v)
+
+
+def _unbag(r):
+    return None if r is None else r.value
+
+
+def _apply(st, kind, i, o, dom=False):
+    k = _pykey(o[1], i)
+    return _apply_raw(_Dom(st) if dom else st, kind, i, o, k, _ident if dom else _pyval)
+
+
+class _Dom:
+    """view of a Dom suber taking / returning plain strings as Bag(value=str)"""
+    def __init__(self, st):
+        self.st = st
+
+    def put(self, k, v):
+        return self.st.put(k, [_bagval(x, 0) for x in v] if isinstance(v, list) else _bagval(v, 0))
+
+    def pin(self, k, v):
+        return self.st.pin(k, [_bagval(x, 0) for x in v] if isinstance(v, list) else _bagval(v, 0))
+
+    def add(self, k, v):
+        return self.st.add(k, _bagval(v, 0))
+
+    def get(self, k):
+        r = self.st.get(k)
+        return [_unbag(x) for x in r] if isinstance(r, list) else _unbag(r)
+
+    def getFirst(self, k):
+        return _unbag(self.st.getFirst(k))
+
+    def getLast(self, k):
+        return _unbag(self.st.getLast(k))
+
+    def pop(self, k):
+        return _unbag(self.st.pop(k))
+
+    def rem(self, k, v=None):
+        return self.st.rem(k) if v is None else self.st.rem(k, _bagval(v, 0))
+
+    def cnt(self, k):
+        return self.st.cnt(k)
+
+    def cntAll(self):
+        return self.st.cntAll()
+
+
+def _ident(v, i):
+    return v
+
+
+def _apply_raw(st, kind, i, o, k, _pyval):
+    name = o[0]
     if name == "put":
         return ["bool", bool(st.put(k, _pyval(o[2][0], i)) if kind == "plain" else st.put(k, [_pyval(v, i + j) for j, v in enumerate(o[2])]))]
     if name == "pin":
@@ -202,33 +305,38 @@ def _dump(env, st):
 
 
 def run_impl(case):
-    e = _stores()
-    kind = case["kind"]
-    st, env = e[kind], e["duror"].env
-    with env.begin(write=True) as txn:     # harness-level reset of the sub-db between cases
-        txn.drop(st.sdb, delete=False)
+    envname = case.get("env", "duror")
+    e = _stores(envname)
+    env = e["duror"].env
+    dom = envname == "subery"
+    with env.begin(write=True) as txn:     # harness-level reset of the sub-dbs between cases
+        for kd in KINDS:
+            txn.drop(e[kd].sdb, delete=False)
     results = []
     for i, o in enumerate(case["ops"]):
+        kd = _store_of(case, o)
         try:
-            results.append(["ok", _apply(st, kind, i, o)])
+            results.append(["ok", _apply(e[kd], kd, i, _op_of(case, o), dom)])
         except Exception as ex:
             results.append(["exc", exn_kind(ex)])
     final = []
-    for parts in _keys_of(case):
+    for kd, parts in _keys_of(case):
+        st = _Dom(e[kd]) if dom else e[kd]
         try:
             r = st.get(tuple(parts) if len(parts) > 1 else parts[0])
-            final.append([parts, ["opt", r] if kind == "plain" else ["list", list(r)]])
+            final.append([kd, parts, ["opt", r] if kd == "plain" else ["list", list(r)]])
         except Exception as ex:
-            final.append([parts, ["exc", exn_kind(ex)]])
-    return {"results": results, "dump": _dump(env, st), "final": final}
+            final.append([kd, parts, ["exc", exn_kind(ex)]])
+    return {"results": results, "dump": [_dump(env, e[kd]) for kd in KINDS], "final": final}
 
 
 def _keys_of(case):
+    """(store, key) pairs of the case, in order of first use"""
     seen, out = set(), []
     for o in case["ops"]:
-        t = tuple(o[1])
+        t = (_store_of(case, o), tuple(o[1]))
         if t not in seen:
-            seen.add(t); out.append(list(o[1]))
+            seen.add(t); out.append((t[0], list(o[1])))
     return out
 
 
@@ -245,7 +353,7 @@ def _joined(parts):
     return "_".join(parts)
 
 
-def _spec_step(kind, s, o):
+def _spec_step(kind, s, o, dom=False):
     name, k = o[0], tuple(o[1])
     if kind == "plain":
         j = _joined(o[1])
@@ -286,7 +394,7 @@ def _spec_step(kind, s, o):
     if name == "rem":
         r = bool(cur); s[k] = []; return ["ok", ["bool", r]]
     if name == "remval":
-        if o[2] == "":                           # documented: empty val removes all values at key
+        if o[2] == "" and not dom:               # documented: empty val removes all values at key (a Bag is never empty)
             r = bool(cur); s[k] = []; return ["ok", ["bool", r]]
         if o[2] in cur:
             cur.remove(o[2]); return ["ok", ["bool", True]]
@@ -297,38 +405,42 @@ def _spec_step(kind, s, o):
 
 
 def oracle(case, obs):
-    kind, s = case["kind"], {}
+    dom = case.get("env", "duror") == "subery"
+    dicts = {kd: {} for kd in KINDS}        # one independent dictionary per store of the environment
+    what = {"plain": "values", "io": "lists", "ioset": "ordered sets"}
     for i, o in enumerate(case["ops"]):
-        want = _spec_step(kind, s, o)
+        kd = _store_of(case, o)
+        want = _spec_step(kd, dicts[kd], _op_of(case, o), dom)
         got = obs["results"][i]
         if want != got:
-            return (f"op {i} {o[0]} on key {o[1]!r}: store returned {got}, a dictionary of "
-                    f"{'values' if kind == 'plain' else 'lists' if kind == 'io' else 'ordered sets'} returns {want}")
-    for parts, got in obs["final"]:
+            return (f"op {i} {o[0]} on key {o[1]!r} of the {kd} store: store returned {got}, a dictionary of "
+                    f"{what[kd]} returns {want}")
+    for kd, parts, got in obs["final"]:
         k = tuple(parts)
-        if kind == "plain":
+        if kd == "plain":
             j = _joined(parts)
-            want = ["exc", "KeyErr"] if len(j) == 0 else ["opt", s.get(k)]
+            want = ["exc", "KeyErr"] if len(j) == 0 else ["opt", dicts[kd].get(k)]
         else:
-            want = ["list", list(s.get(k, []))]
+            want = ["list", list(dicts[kd].get(k, []))]
         if got != want:
-            return f"final content at key {parts!r} is {got}, dictionary has {want}"
+            return f"final content at key {parts!r} of the {kd} store is {got}, its dictionary has {want}"
     return None
 
 
 def classify(case, obs, why):
-    """Known-finding classes, decided from the key set of the case only."""
-    keys = _keys_of(case)
-    joined = {}
-    for parts in keys:
-        joined.setdefault(_joined(parts), set()).add(tuple(parts))
-    if any(len(v) > 1 for v in joined.values()):
-        return "D27-tuplekey"                 # two distinct keys are joined to the same db key
-    if case["kind"] in ("io", "ioset"):
+    """Known-finding classes, decided from the key set each store of the case uses."""
+    tup = scan = False
+    for kd in KINDS:
+        joined = {}
+        for k2, parts in _keys_of(case):
+            if k2 == kd:
+                joined.setdefault(_joined(parts), set()).add(tuple(parts))
+        if any(len(v) > 1 for v in joined.values()):
+            tup = True                          # two distinct keys are joined to the same db key
         js = list(joined)
-        if any(a != b and b.startswith(a + ".") for a in js for b in js):
-            return "D27-ioscan"               # one key is another key + ion separator + more
-    return None
+        if kd != "plain" and any(a != b and b.startswith(a + ".") for a in js for b in js):
+            scan = True                         # one key is another key + ion separator + more
+    return "D27-tuplekey" if tup else "D27-ioscan" if scan else None
 
 
 # ---------------------------------------------------------------- Gallina
@@ -364,16 +476,35 @@ def _coq_rv(r):
 
 
 def to_coq(case, obs):
-    kind = {"plain": "IoSub.Plain", "io": "IoSub.Io", "ioset": "IoSub.IoSet"}[case["kind"]]
-    res = [f"(Ok {_coq_rv(r[1])})" if r[0] == "ok" else f"(Exc {r[1]})" for r in obs["results"]]
-    dump = [f"({_b(k)}, {_b(v)})" for k, v in obs["dump"]]
-    return ("{| IoSub.c_kind := %s; IoSub.c_ops := %s; IoSub.c_results := %s; IoSub.c_dump := %s |}" % (
-        kind, coq_list([_coq_op(o) for o in case["ops"]], "IoSub.op"), coq_list(res, "res IoSub.rv"),
-        coq_list(dump, "bytes * bytes")))
+    dom = case.get("env", "duror") == "subery"
+    w = (lambda v: None if v is None else _wrap(v)) if dom else (lambda v: v)
+    kinds = {"plain": "IoSub.Plain", "io": "IoSub.Io", "ioset": "IoSub.IoSet"}
+    ops = []
+    for o in case["ops"]:
+        o2 = list(_op_of(case, o))
+        if o2[0] in ("put", "pin"):
+            o2[2] = [w(v) for v in o2[2]]
+        elif o2[0] in ("add", "remval"):
+            o2[2] = w(o2[2])
+        ops.append(f"({kinds[_store_of(case, o)]}, {_coq_op(o2)})")
+    res = []
+    for r in obs["results"]:
+        if r[0] != "ok":
+            res.append(f"(Exc {r[1]})"); continue
+        t, v = r[1]
+        if t == "opt":
+            v = w(v)
+        elif t == "list":
+            v = [w(x) for x in v]
+        res.append(f"(Ok {_coq_rv([t, v])})")
+    dumps = [coq_list([f"({_b(k)}, {_b(v)})" for k, v in d], "bytes * bytes") for d in obs["dump"]]
+    return ("{| IoSub.c_ops := %s; IoSub.c_results := %s; IoSub.c_dump := %s |}" % (
+        coq_list(ops, "IoSub.kind * IoSub.op"), coq_list(res, "res IoSub.rv"),
+        coq_list(dumps, "list (bytes * bytes)")))
 
 
 def nontrivial(case, obs):
-    js = [_joined(p) for p in _keys_of(case)]
+    js = [_joined(p) for _, p in _keys_of(case)]
     if len(js) < 2:
         return False
     related = any(a != b and b.startswith(a) for a in js for b in js) or any("." in j or "_" in j for j in js)
@@ -385,15 +516,14 @@ def nontrivial(case, obs):
 def shrink(case):
     ops = case["ops"]
     for i in range(len(ops)):
-        yield {"kind": case["kind"], "ops": ops[:i] + ops[i + 1:]}
+        yield dict(case, ops=ops[:i] + ops[i + 1:])
 
 
 def distribution(cases, obs):
-    d = {"plain": 0, "io": 0, "ioset": 0, "risky_keyset": 0, "ops": 0}
+    d = {"plain": 0, "io": 0, "ioset": 0, "multi": 0, "risky_keyset": 0, "ops": 0}
     for c in cases:
         d[c["kind"]] += 1
         d["ops"] += len(c["ops"])
-        js = [_joined(p) for p in _keys_of(c)]
-        if len(set(js)) < len(js) or any(a != b and b.startswith(a + ".") for a in js for b in js):
+        if classify(c, None, None) is not None:
             d["risky_keyset"] += 1
     return d
